@@ -20,6 +20,7 @@ mod c14;
 mod c15;
 mod c18;
 mod coldstart;
+mod e2e;
 
 use common::*;
 use std::io::Write;
@@ -31,6 +32,16 @@ fn main() {
         std::process::exit(2);
     }
     let id = args[1].clone();
+    if id == "E2E" {
+        // catalogue of end-to-end scenarios for tools/e2e1090.py (no call into the subject)
+        let thorough = args.iter().any(|a| a == "thorough");
+        let text = serde_json::to_string(&e2e::catalogue(thorough)).unwrap();
+        match args.iter().position(|a| a == "--out") {
+            Some(i) => std::fs::write(&args[i + 1], text).expect("out file"),
+            None => println!("{text}"),
+        }
+        return;
+    }
     if args.iter().any(|a| a == "--coldstart") {
         std::process::exit(coldstart::run(&id, 16));
     }
